@@ -32,6 +32,7 @@ def reqNum {β : Type} (o : Option β) : Except Err β := match o with | some v 
 
 @[simp] theorem bind_ok {ε β γ : Type} (a : β) (f : β → Except ε γ) : (Except.ok a >>= f) = f a := rfl
 @[simp] theorem bind_error {ε β γ : Type} (e : ε) (f : β → Except ε γ) : ((Except.error e : Except ε β) >>= f) = Except.error e := rfl
+@[simp] theorem throw_eq_error {ε β : Type} (e : ε) : (throw e : Except ε β) = Except.error e := rfl
 @[simp] theorem pure_eq_ok {ε β : Type} (a : β) : (pure a : Except ε β) = Except.ok a := rfl
 @[simp] theorem Dict.set_same {β : Type} (d : Dict β) (k : String) (v : β) : (d.set k v) k = some v := by simp [Dict.set]
 @[simp] theorem Dict.set_other {β : Type} (d : Dict β) (k k' : String) (v : β) (h : k' ≠ k) : (d.set k v) k' = d k' := by
